@@ -20,9 +20,17 @@ for d in sorted(glob.glob("seeded/*")):
             caught.append(f"{c} ({sig})")
         else:
             caught.append(f"{c}: NOT caught (rc={r.get('rc')})")
+    fc = m.get("first_contact")
+    if fc is not None:
+        own = name.split("-")[0]
+        r0 = fc.get(own, {})
+        first = ("caught" if r0.get("caught") else
+                 ("harness error" if r0.get("rc") == 2 else "missed"))
+    else:
+        first = "-"
     conf = m.get("confirmed_by_me", {})
     ok = all(conf.get(k) for k in ("demo_fails_with_change", "tests_pass_with_change", "demo_passes_without_change"))
-    rows.append(f"| {name} | {m.get('language','python')} | {summ} | {needs} | {'yes' if ok else 'NO'} | {'; '.join(caught)} |")
-print("| seeded change | lang | what it does | needs to manifest | confirmed (tests pass, demo fails/passes) | caught by (quick tier) |")
-print("|---|---|---|---|---|---|")
+    rows.append(f"| {name} | {m.get('language','python')} | {summ} | {needs} | {'yes' if ok else 'NO'} | {first} | {'; '.join(caught)} |")
+print("| seeded change | lang | what it does | needs to manifest | confirmed (tests pass, demo fails/passes) | blind first contact | caught by (quick tier, final checks) |")
+print("|---|---|---|---|---|---|---|")
 print("\n".join(rows))
